@@ -505,12 +505,9 @@ def generate(tier, seed):
                 continue
             t2 = U.apply_local_orders(kind, np.asarray(t), rng)
             r = make_recipe(kind, p, t2, fam + '-unsorted', rng, 1, ALL_FMTS, history=(k % 2 == 0))
-            if kind == 'tri':
-                # BOUNDARY facets only for the triangles for now: which of its two cells an interior facet's flag (or a
-                # plain array's implicit side) designates is read off f2t, whose row order depends on the local order -
-                # after the loader has re-sorted t the same flag names the other cell (reported to the coordinator as
-                # still open after efcdcea); interior facets are to be added here once that is settled
-                _boundary_only(r, rng)
+            # interior facets included: which of its two cells a flag (or a plain array's implicit side) designates is read
+            # off f2t, whose row order depends on the local order; /repo fix 88c0145 translates the flags to the mesh
+            # that the loader returns (re-sorted t)
             r['unsorted'] = 1
             r['oriented'] = variant
             recs.append(r)
